@@ -1,7 +1,9 @@
 (* Client/Sound_Client_aux.v — codec facts used by Sound_Client.v: what the datagrams written by
    the client model decode to.  The packets are not assumed well-formed in the sense of wf_pkt:
    topic names and payloads come from the API caller and are only bounded by the size check of
-   c_send; QoS values above 3 are masked by the encoder. *)
+   c_send; QoS values above 3 are masked by the encoder.
+   Second half: invariants of the client model (InvA: stored packets and the message-ID store;
+   K: distinct ids of pending API calls) and their preservation by cl_step. *)
 From Coq Require Import List NArith Bool Lia ZArith ZifyN ZifyNat ZifyBool.
 From Verif.Base Require Import Bytes BytesProofs.
 From Verif.Codec Require Import Packets Decode Encode EncodeProofs.
@@ -327,4 +329,836 @@ Proof.
   unfold slice_from in H.
   destruct (Nat.leb (encoded_header_length raw) (length raw)); cbn [obind] in H; try discriminate H.
   eapply unpack_body_fact; [|exact H]. apply wf_bytes_skipn, Hraw.
+Qed.
+
+(* ================================================================== invariants of the client model *)
+From stdpp Require Import base option list numbers fin_maps nmap.
+From RecordUpdate Require Import RecordSet.
+From Verif.Gateway Require Import GwTypes.
+From Verif.Client Require Import ClTypes ClStep.
+Import RecordSetNotations.
+Open Scope N_scope.
+
+(* a stored PUBLISH / SUBSCRIBE belongs to a transaction whose retries set DUP *)
+Definition kd_ok (kind : N) (d : packet) : Prop :=
+  match d with
+  | Publish _ _ _ _ _ _ _ | Subscribe _ _ _ _ _ _ => kind = 1 \/ kind = 3 \/ kind = 4
+  | _ => True
+  end.
+(* b = true: additionally, the stored packet carries a non-empty name *)
+Definition obj_ok (b : bool) (t : ctxn) : Prop :=
+  match t with
+  | CxRetry _ kind _ _ d _ _ => csend d /\ kd_ok kind d /\ (b = true -> namedb d = true)
+  | _ => True
+  end.
+(* the message-ID slot a transaction occupies *)
+Definition id_key (t : ctxn) : option N :=
+  match t with
+  | CxRetry _ kind key _ _ _ _ => if (kind =? 5) || (kind =? 6) || (kind =? 7) then None else Some key
+  | CxBrokerPub2 mid _ => Some mid
+  | _ => None
+  end.
+
+Record InvA (b : bool) (s : cl_state) : Prop := {
+  ia_obj : forall g t, cl_objs s !! g = Some t -> obj_ok b t;
+  ia_id : forall k g, cl_by_id s !! k = Some g -> exists t, cl_objs s !! g = Some t /\ id_key t = Some k;
+  ia_lt : forall g t, cl_objs s !! g = Some t -> g < cl_next_obj s }.
+
+Lemma invA_init b : InvA b cl_init.
+Proof. split; cbn; intros ? ? H; rewrite lookup_empty in H; discriminate. Qed.
+
+Lemma invA_frame b s s' : cl_objs s' = cl_objs s -> cl_by_id s' = cl_by_id s -> cl_next_obj s' = cl_next_obj s ->
+  InvA b s -> InvA b s'.
+Proof. intros E1 E2 E3 [H1 H2 H3]. split; rewrite ?E1, ?E2, ?E3; assumption. Qed.
+
+Lemma invA_arm b s k d : InvA b s -> InvA b (c_arm s k d).
+Proof. apply invA_frame; reflexivity. Qed.
+Lemma invA_disarm b s g : InvA b s -> InvA b (c_disarm s g).
+Proof. apply invA_frame; reflexivity. Qed.
+Lemma invA_set_state b s st : InvA b s -> InvA b (c_set_state s st).
+Proof. apply invA_frame; reflexivity. Qed.
+Lemma invA_cancel_api b s : InvA b s -> InvA b (c_cancel_from_api s).
+Proof. unfold c_cancel_from_api. destruct (cl_cancelled s); [auto|apply invA_frame; reflexivity]. Qed.
+Lemma invA_cancel_loop b s e : InvA b s -> InvA b (c_cancel_from_loop s e).
+Proof. unfold c_cancel_from_loop. destruct (cl_cancelled s); [auto|apply invA_frame; reflexivity]. Qed.
+
+Lemma invA_new_obj b s t : InvA b s -> obj_ok b t ->
+  InvA b (fst (c_new_obj s t)) /\ cl_objs (fst (c_new_obj s t)) !! snd (c_new_obj s t) = Some t.
+Proof.
+  intros [H1 H2 H3] Ht. unfold c_new_obj. cbn [fst snd]. split; [split|]; cbn.
+  - intros g t' H. destruct (N.eq_dec g (cl_next_obj s)) as [->|Hne].
+    + rewrite lookup_insert in H. injection H as <-. exact Ht.
+    + rewrite lookup_insert_ne in H by congruence. eapply H1, H.
+  - intros k g H. destruct (H2 k g H) as (t' & Hg & Hk). exists t'. split; [|exact Hk].
+    rewrite lookup_insert_ne; [exact Hg|]. apply H3 in Hg. lia.
+  - intros g t' H. destruct (N.eq_dec g (cl_next_obj s)) as [->|Hne]; [lia|].
+    rewrite lookup_insert_ne in H by congruence. apply H3 in H. lia.
+  - apply lookup_insert.
+Qed.
+
+(* a message-ID slot is pointed at an object with that key *)
+Lemma invA_slot b s g t k : InvA b s -> cl_objs s !! g = Some t -> id_key t = Some k ->
+  InvA b (s <| cl_by_id := <[k := g]> (cl_by_id s) |>).
+Proof.
+  intros [H1 H2 H3] Hg Hk. split; cbn; [exact H1| |exact H3].
+  intros k' g' H. destruct (N.eq_dec k' k) as [->|Hne].
+  - rewrite lookup_insert in H. injection H as <-. exists t. auto.
+  - rewrite lookup_insert_ne in H by congruence. apply H2, H.
+Qed.
+
+Lemma invA_set_obj b s g t t' : InvA b s -> cl_objs s !! g = Some t -> obj_ok b t' ->
+  (id_key t' = id_key t \/ exists k, cl_by_id s !! k = Some g /\ id_key t' = Some k) ->
+  InvA b (c_set_obj s g t').
+Proof.
+  intros [H1 H2 H3] Hg Ht Hk. unfold c_set_obj. split; cbn.
+  - intros g' t'' H. destruct (N.eq_dec g' g) as [->|Hne].
+    + rewrite lookup_insert in H. injection H as <-. exact Ht.
+    + rewrite lookup_insert_ne in H by congruence. eapply H1, H.
+  - intros k g' H. destruct (H2 k g' H) as (t0 & Hg0 & Hk0). destruct (N.eq_dec g' g) as [->|Hne].
+    + exists t'. rewrite lookup_insert. split; [reflexivity|].
+      rewrite Hg in Hg0. injection Hg0 as <-.
+      destruct Hk as [Hk|(k1 & Hk1 & Hk2)]; [congruence|].
+      destruct (H2 k1 g Hk1) as (t1 & Hg1 & Hk3). rewrite Hg in Hg1. injection Hg1 as <-. congruence.
+    + exists t0. rewrite lookup_insert_ne by congruence. auto.
+  - intros g' t'' H. destruct (N.eq_dec g' g) as [->|Hne]; [eapply H3, Hg|].
+    rewrite lookup_insert_ne in H by congruence. eapply H3, H.
+Qed.
+
+Lemma invA_finish b s g : InvA b s -> InvA b (c_finish_obj s g).
+Proof.
+  intros Hi. unfold c_finish_obj. destruct (cl_objs s !! g) as [t|] eqn:Hg; [|exact Hi].
+  destruct Hi as [H1 H2 H3].
+  assert (Hobj : forall g' t', delete g (cl_objs s) !! g' = Some t' -> cl_objs s !! g' = Some t' /\ g' <> g).
+  { intros g' t' H. destruct (N.eq_dec g' g) as [->|Hne]; [rewrite lookup_delete in H; discriminate|].
+    rewrite lookup_delete_ne in H by congruence. auto. }
+  (* the slot is by type: the message-ID store is untouched, and nothing in it points at g *)
+  assert (Hty : id_key t = None ->
+    forall s', cl_objs s' = delete g (cl_objs s) -> cl_by_id s' = cl_by_id s -> cl_next_obj s' = cl_next_obj s -> InvA b s').
+  { intros Hn s' E1 E2 E3. split; rewrite ?E1, ?E2, ?E3.
+    - intros g' t' H. apply Hobj in H. eapply H1, H.
+    - intros k g' H. destruct (H2 k g' H) as (t0 & Hg0 & Hk0). exists t0. split; [|exact Hk0].
+      destruct (N.eq_dec g' g) as [->|Hne]; [rewrite Hg in Hg0; injection Hg0 as <-; congruence|].
+      rewrite lookup_delete_ne by congruence. exact Hg0.
+    - intros g' t' H. apply Hobj in H. eapply H3, H. }
+  assert (Hid : forall k, id_key t = Some k ->
+    forall s', cl_objs s' = delete g (cl_objs s) -> cl_by_id s' = delete k (cl_by_id s) -> cl_next_obj s' = cl_next_obj s -> InvA b s').
+  { intros k Hk s' E1 E2 E3. split; rewrite ?E1, ?E2, ?E3.
+    - intros g' t' H. apply Hobj in H. eapply H1, H.
+    - intros k' g' H. destruct (N.eq_dec k' k) as [->|Hnk]; [rewrite lookup_delete in H; discriminate|].
+      rewrite lookup_delete_ne in H by congruence.
+      destruct (H2 k' g' H) as (t0 & Hg0 & Hk0). exists t0. split; [|exact Hk0].
+      destruct (N.eq_dec g' g) as [->|Hne]; [rewrite Hg in Hg0; injection Hg0 as <-; congruence|].
+      rewrite lookup_delete_ne by congruence. exact Hg0.
+    - intros g' t' H. apply Hobj in H. eapply H3, H. }
+  destruct t as [call att|call kind key st data n sub|call st n ms|mid pub].
+  - apply Hty; reflexivity.
+  - cbn [id_key] in Hty, Hid.
+    destruct (kind =? 5) eqn:E5; [apply Hty; reflexivity|].
+    destruct ((kind =? 6) || (kind =? 7)) eqn:E67.
+    + apply Hty; [|reflexivity..]. cbn [orb]. rewrite E67. reflexivity.
+    + eapply Hid; [|reflexivity..]. cbn [orb]. rewrite E67. reflexivity.
+  - apply Hty; reflexivity.
+  - eapply Hid; reflexivity.
+Qed.
+
+Lemma c_get_id_Some s mid g t : c_get_id s mid = Some (g, t) -> cl_by_id s !! mid = Some g /\ cl_objs s !! g = Some t.
+Proof.
+  unfold c_get_id. destruct (cl_by_id s !! mid) as [g'|]; [|discriminate].
+  destruct (cl_objs s !! g') as [t'|] eqn:E; [|discriminate]. intros H. injection H as <- <-. auto.
+Qed.
+Lemma c_get_type_Some s ty g t : c_get_type s ty = Some (g, t) -> cl_by_type s !! ty = Some g /\ cl_objs s !! g = Some t.
+Proof.
+  unfold c_get_type. destruct (cl_by_type s !! ty) as [g'|]; [|discriminate].
+  destruct (cl_objs s !! g') as [t'|] eqn:E; [|discriminate]. intros H. injection H as <- <-. auto.
+Qed.
+
+(* a record update that leaves the object store, the message-ID store and the object counter alone *)
+Ltac invA_raw :=
+  match goal with
+  | |- InvA ?b (set ?f ?v ?X) => apply (invA_frame b X (set f v X)); [reflexivity|reflexivity|reflexivity|]
+  end.
+
+Lemma connect_attempt_invA b cfg s call n : InvA b s -> InvA b (fst (connect_attempt cfg s call n)).
+Proof.
+  intros Hi. unfold connect_attempt.
+  destruct (invA_new_obj b s (CxConnect call n) Hi I) as [Hi1 _].
+  destruct (c_new_obj s (CxConnect call n)) as [s1 g1]. cbn [fst snd] in Hi1. cbv zeta.
+  match goal with |- context [c_arm ?X ?k ?d] => assert (Hi2 : InvA b (c_arm X k d)) by (apply invA_arm; invA_raw; exact Hi1);
+    generalize dependent (c_arm X k d) end.
+  intros s2 Hi2. destruct (c_send s2 (connect_pkt cfg)) as [o1 [|]]; [|exact Hi2].
+  destruct (len (k_user cfg) =? 0); [exact Hi2|]. destruct (c_send s2 (auth_pkt cfg)) as [o2 [|]]; exact Hi2.
+Qed.
+
+Lemma start_retry_invA b cfg s call kind key st p bt s' g o ok :
+  start_retry cfg s call kind key st p bt = (s', g, o, ok) -> InvA b s ->
+  obj_ok b (CxRetry call kind key st p 0 call) ->
+  (bt = false -> (kind =? 5) || (kind =? 6) || (kind =? 7) = false) ->
+  InvA b s'.
+Proof.
+  unfold start_retry. intros H Hi Ht Hk.
+  destruct (invA_new_obj b s _ Hi Ht) as [Hi1 Hg1].
+  destruct (c_new_obj s (CxRetry call kind key st p 0 call)) as [s1 g1]. cbn [fst snd] in Hi1, Hg1. cbv zeta in H.
+  match type of H with context [c_arm ?X ?k ?d] => assert (Hi2 : InvA b (c_arm X k d)) end.
+  { apply invA_arm. destruct bt; [invA_raw; exact Hi1|].
+    eapply invA_slot; [exact Hi1|exact Hg1|]. cbn [id_key]. rewrite Hk by reflexivity. reflexivity. }
+  match type of H with context [c_send ?X p] => destruct (c_send X p) as [o1 ok1] end.
+  injection H as <- _ _ _. exact Hi2.
+Qed.
+
+Lemma call_simple_invA b cfg s call kind st mk :
+  InvA b s -> (forall mid, obj_ok b (CxRetry call kind mid st (mk mid) 0 call)) ->
+  (kind =? 5) || (kind =? 6) || (kind =? 7) = false ->
+  InvA b (fst (call_simple cfg s call kind st mk)).
+Proof.
+  intros Hi Ht Hk. unfold call_simple, c_next_mid.
+  match goal with |- context [start_retry ?a ?b ?c ?d ?e ?f ?g ?h] => destruct (start_retry a b c d e f g h) as [[[s' g'] o] ok] eqn:E end.
+  eapply start_retry_invA in E; [|invA_raw; exact Hi|apply Ht|intros _; exact Hk].
+  destruct ok; cbn [fst]; [exact E|apply invA_finish, E].
+Qed.
+
+Lemma do_publish_invA b cfg s call tit tid qos retain payload :
+  InvA b s -> InvA b (fst (do_publish cfg s call tit tid qos retain payload)).
+Proof.
+  intros Hi. unfold do_publish, c_next_mid. cbv zeta.
+  assert (Hi0 : InvA b (s <| cl_next_mid := if cl_next_mid s =? 65535 then 1 else cl_next_mid s + 1 |>)) by (invA_raw; exact Hi).
+  destruct ((qos =? 0) || (qos =? 3)).
+  { match goal with |- context [c_send ?X ?p] => destruct (c_send X p) as [o [|]] end; exact Hi0. }
+  destruct (qos =? 1).
+  { match goal with |- context [start_retry ?a ?b ?c ?d ?e ?f ?g ?h] => destruct (start_retry a b c d e f g h) as [[[s' g'] o] ok] eqn:E end.
+    eapply start_retry_invA in E; [|exact Hi0| |intros _; reflexivity].
+    - destruct ok; cbn [fst]; [exact E|apply invA_finish, E].
+    - cbn [obj_ok csend kd_ok namedb]. auto. }
+  destruct (qos =? 2).
+  { match goal with |- context [start_retry ?a ?b ?c ?d ?e ?f ?g ?h] => destruct (start_retry a b c d e f g h) as [[[s' g'] o] ok] eqn:E end.
+    eapply start_retry_invA in E; [|exact Hi0| |intros _; reflexivity].
+    - destruct ok; cbn [fst]; [exact E|apply invA_finish, E].
+    - cbn [obj_ok csend kd_ok namedb]. auto. }
+  exact Hi0.
+Qed.
+
+Ltac sr_invA b :=
+  match goal with |- context [start_retry ?a ?b0 ?c ?d ?e ?f ?g ?h] =>
+    let E := fresh "E" in
+    destruct (start_retry a b0 c d e f g h) as [[[? ?] ?] ok] eqn:E;
+    eapply (start_retry_invA b) in E;
+      [|eassumption|cbn [obj_ok csend kd_ok namedb]; auto|intros ?; first [reflexivity|discriminate]];
+    destruct ok; cbn [fst]
+  end.
+
+Lemma do_call_invA b cfg s call a : InvA b s -> InvA b (fst (do_call cfg s call a)).
+Proof.
+  intros Hi. unfold do_call.
+  destruct a as [|topic|topic qos|tid qos|topic qos retain payload|tid qos retain payload|topic|tid| |ms| |].
+  - apply connect_attempt_invA, Hi.
+  - destruct (len topic =? 0) eqn:Hn; [exact Hi|].
+    apply call_simple_invA; [exact Hi| |reflexivity]. intros mid. cbn [obj_ok csend kd_ok namedb]. rewrite Hn. auto.
+  - destruct (len topic =? 0) eqn:Hn; [exact Hi|].
+    destruct (is_short_topic topic); (apply call_simple_invA; [exact Hi| |reflexivity]); intros mid;
+      cbn [obj_ok csend kd_ok namedb]; rewrite ?Hn; unfold TIT_SHORT, TIT_STRING; cbn [N.eqb negb orb];
+      (split; [lia|split; [auto|auto]]).
+  - apply call_simple_invA; [exact Hi| |reflexivity]. intros mid.
+    cbn [obj_ok csend kd_ok namedb]. unfold TIT_PREDEFINED. cbn [N.eqb Pos.eqb negb orb]. split; [lia|auto].
+  - destruct (is_short_topic topic); [apply do_publish_invA, Hi|].
+    destruct (reg_lookup (cl_registered s) topic); [apply do_publish_invA, Hi|exact Hi].
+  - apply do_publish_invA, Hi.
+  - destruct (len topic =? 0) eqn:Hn; [exact Hi|].
+    destruct (is_short_topic topic); (apply call_simple_invA; [exact Hi| |reflexivity]); intros mid;
+      cbn [obj_ok csend kd_ok namedb]; rewrite ?Hn; unfold TIT_SHORT, TIT_STRING; cbn [N.eqb negb orb];
+      (split; [lia|split; [auto|auto]]).
+  - apply call_simple_invA; [exact Hi| |reflexivity]. intros mid.
+    cbn [obj_ok csend kd_ok namedb]. unfold TIT_PREDEFINED. cbn [N.eqb Pos.eqb negb orb]. split; [lia|auto].
+  - sr_invA b; [exact E|apply invA_finish, E].
+  - destruct (negb _); [exact Hi|].
+    destruct (invA_new_obj b s (CxSleep call CtNone 0 ms) Hi I) as [Hi1 Hg1].
+    destruct (c_new_obj s (CxSleep call CtNone 0 ms)) as [s1 g1]. cbn [fst snd] in Hi1, Hg1. cbv zeta.
+    assert (Hi2 : InvA b (s1 <| cl_by_type := <[TY_DISCONNECT := g1]> (cl_by_type s1) |>)) by (invA_raw; exact Hi1).
+    cbn [cl_st set]. destruct (cl_st s1); cbn [fst]; try exact Hi2.
+    + match goal with |- context [c_send ?X ?p] => destruct (c_send X p) as [o [|]] end; cbn [fst].
+      * apply invA_arm. eapply invA_set_obj; [exact Hi2|exact Hg1|exact I|left; reflexivity].
+      * apply invA_finish, Hi2.
+    + apply invA_arm, invA_set_state, Hi2.
+  - destruct (cl_st s); cbn [fst]; try exact Hi; (sr_invA b; [apply invA_set_state, E|apply invA_finish, E]).
+  - destruct (cl_st s); cbn [fst]; try (invA_raw; apply invA_cancel_loop, Hi);
+      (sr_invA b; [apply invA_set_state, E|apply invA_finish, E]).
+Qed.
+
+Lemma complete_invA b cfg s g t r ic : InvA b s -> InvA b (fst (complete cfg s g t r ic)).
+Proof.
+  intros Hi. unfold complete. cbv zeta.
+  assert (Hf : InvA b (c_finish_obj s g)) by (apply invA_finish, Hi).
+  destruct (cl_cancelled (c_finish_obj s g)).
+  { cbn [fst]. destruct (cl_exited _); [exact Hf|invA_raw; exact Hf]. }
+  destruct t as [call att|call kind key st data n sub|call st n ms|mid pub]; cbn [fst]; try exact Hf.
+  - destruct r; cbn [fst]; try exact Hf.
+    destruct (att + 1 <=? k_rcount cfg); [apply connect_attempt_invA, Hf|exact Hf].
+  - destruct (kind =? 6); [destruct r; cbn [fst]; try exact Hf; apply invA_cancel_api, Hf|].
+    destruct (kind =? 7); [destruct r; cbn [fst]; try exact Hf; invA_raw; apply invA_cancel_loop, Hf|]. exact Hf.
+Qed.
+
+Lemma c_exit_invA b s t : InvA b s -> InvA b (fst (c_exit s t)).
+Proof. intros Hi. unfold c_exit. cbv zeta. cbn [fst]. repeat invA_raw. exact Hi. Qed.
+
+Ltac invA_solve b :=
+  repeat first
+    [ assumption
+    | apply invA_arm | apply invA_disarm | apply invA_set_state | apply invA_cancel_api | apply invA_cancel_loop
+    | apply invA_finish | apply complete_invA | apply connect_attempt_invA
+    | eapply invA_set_obj;
+        [|eassumption|cbn [obj_ok csend kd_ok namedb]; auto
+         |first [left; reflexivity|right; eexists; split; [eassumption|reflexivity]]]
+    | eapply invA_slot; [|eassumption|reflexivity]
+    | invA_raw
+    | match goal with |- InvA _ (if ?c then _ else _) => destruct c end ].
+
+Ltac invA_walk b :=
+  repeat first
+    [ progress cbn [fst snd loop_err]
+    | match goal with H : c_get_id _ _ = Some (_, _) |- _ => apply c_get_id_Some in H; destruct H as [? ?] end
+    | match goal with H : c_get_type _ _ = Some (_, _) |- _ => apply c_get_type_Some in H; destruct H as [? ?] end
+    | match goal with |- context [c_new_obj ?X ?t] =>
+        let Hi := fresh "Hi" in let Hg := fresh "Hg" in
+        destruct (invA_new_obj b X t ltac:(assumption) I) as [Hi Hg];
+        destruct (c_new_obj X t) as [? ?]; cbn [fst snd] in Hi, Hg
+      end
+    | match goal with |- InvA _ (fst (match ?x with _ => _ end)) => destruct x eqn:? end
+    | match goal with |- InvA _ (fst (if ?x then _ else _)) => destruct x eqn:? end
+    | match goal with |- InvA _ (fst (let (_, _) := ?x in _)) => destruct x eqn:? end ].
+
+Lemma handle_packet_invA b cfg s p : InvA b s -> InvA b (fst (handle_packet cfg s p)).
+Proof.
+  intros Hi. unfold handle_packet. destruct p; cbv zeta; invA_walk b; invA_solve b.
+Qed.
+
+Lemma csend_set_dup d : csend d -> csend (c_set_dup d).
+Proof. destruct d; cbn [c_set_dup csend]; auto. Qed.
+Lemma kd_ok_set_dup k d : kd_ok k d -> kd_ok k (c_set_dup d).
+Proof. destruct d; cbn [c_set_dup kd_ok]; auto. Qed.
+Lemma namedb_set_dup d : namedb (c_set_dup d) = namedb d.
+Proof. destruct d; reflexivity. Qed.
+
+(* the packet a retry of a transaction of this kind writes *)
+Definition retry_data (kind : N) (data : packet) : packet :=
+  if (kind =? 1) || (kind =? 3) || (kind =? 4) then c_set_dup data else data.
+
+Lemma obj_ok_retry b call kind key st data n sub st' n' :
+  obj_ok b (CxRetry call kind key st data n sub) -> obj_ok b (CxRetry call kind key st' (retry_data kind data) n' sub).
+Proof.
+  cbn [obj_ok]. intros (H1 & H2 & H3). unfold retry_data. destruct ((kind =? 1) || (kind =? 3) || (kind =? 4)); [|auto].
+  split; [apply csend_set_dup, H1|split; [apply kd_ok_set_dup, H2|rewrite namedb_set_dup; exact H3]].
+Qed.
+
+Lemma c_fire_invA b cfg s k : InvA b s -> InvA b (fst (c_fire cfg s k)).
+Proof.
+  intros Hi. unfold c_fire. destruct k as [g|g|g|g|g]; cbv zeta.
+  - invA_walk b; invA_solve b.
+  - destruct (cl_objs s !! g) as [[call att|call kind key st data n sub|call st n ms|mid pub]|] eqn:Hg; cbn [fst]; try exact Hi.
+    destruct (k_rcount cfg <? n + 1); [apply complete_invA, Hi|].
+    fold (retry_data kind data).
+    assert (Hi1 : InvA b (c_set_obj s g (CxRetry call kind key st (retry_data kind data) (n + 1) sub))).
+    { eapply invA_set_obj; [exact Hi|exact Hg| |left; reflexivity].
+      eapply obj_ok_retry, (ia_obj b s Hi g _ Hg). }
+    invA_walk b; invA_solve b.
+  - invA_walk b; invA_solve b.
+  - invA_walk b; invA_solve b.
+  - invA_walk b; invA_solve b.
+Qed.
+
+Lemma c_run_timers_invA b cfg t fuel : forall s, InvA b s -> InvA b (fst (c_run_timers fuel cfg s t)).
+Proof.
+  induction fuel as [|fuel IH]; intros s Hi; cbn [c_run_timers]; [exact Hi|]. cbv zeta.
+  destruct (c_min_timer (cl_timers s)) as [tm|].
+  - match goal with |- context [if ?c then _ else _] => destruct c end.
+    + match goal with |- context [c_fire cfg ?X ?k] =>
+        assert (Hi1 : InvA b (fst (c_fire cfg X k))) by (apply c_fire_invA; repeat invA_raw; exact Hi);
+        destruct (c_fire cfg X k) as [s1 o1] end.
+      cbn [fst] in Hi1. specialize (IH s1 Hi1). destruct (c_run_timers fuel cfg s1 t) as [s2 o2]. exact IH.
+    + destruct (if cl_exited s then None else cl_cancelled s) as [te|]; [|exact Hi].
+      destruct (te <=? t); [|exact Hi].
+      pose proof (c_exit_invA b s te Hi) as Hi1. destruct (c_exit s te) as [s1 o1]. cbn [fst] in Hi1.
+      specialize (IH s1 Hi1). destruct (c_run_timers fuel cfg s1 t) as [s2 o2]. exact IH.
+  - destruct (if cl_exited s then None else cl_cancelled s) as [te|]; [|exact Hi].
+    destruct (te <=? t); [apply c_exit_invA, Hi|exact Hi].
+Qed.
+
+Lemma cl_step_invA b cfg s ev : InvA b s -> InvA b (fst (cl_step cfg s ev)).
+Proof.
+  intros Hi. unfold cl_step. destruct ev as [id a|dg|d].
+  - destruct (cl_exited s); [exact Hi|]. destruct (cl_cancelled s); [exact Hi|].
+    pose proof (do_call_invA b cfg s id a Hi) as Hi1. destruct (do_call cfg s id a) as [s1 o1]. cbn [fst] in Hi1.
+    destruct (cl_cancelled s1) as [te|]; [|exact Hi1]. destruct (te <=? cl_now s1); [|exact Hi1].
+    pose proof (c_exit_invA b s1 te Hi1) as Hi2. destruct (c_exit s1 te) as [s2 o2]. exact Hi2.
+  - destruct (cl_exited s); [exact Hi|]. destruct (cl_cancelled s); [exact Hi|]. cbv zeta.
+    assert (Hi0 : InvA b (s <| cl_last_read := cl_now s |>)) by (invA_raw; exact Hi).
+    destruct (read_dgram dg) as [p|e|ps].
+    + pose proof (handle_packet_invA b cfg _ p Hi0) as Hi1.
+      destruct (handle_packet cfg (s <| cl_last_read := cl_now s |>) p) as [s1 o1]. cbn [fst] in Hi1.
+      destruct (cl_cancelled s1) as [te|]; [|exact Hi1]. destruct (te <=? cl_now s1); [|exact Hi1].
+      pose proof (c_exit_invA b s1 te Hi1) as Hi2. destruct (c_exit s1 te) as [s2 o2]. exact Hi2.
+    + match goal with |- context [c_exit ?X ?t] =>
+        pose proof (c_exit_invA b X t ltac:(apply invA_cancel_loop, Hi0)) as Hi2; destruct (c_exit X t) as [s2 o2] end. exact Hi2.
+    + match goal with |- context [c_exit ?X ?t] =>
+        pose proof (c_exit_invA b X t ltac:(apply invA_cancel_loop, Hi0)) as Hi2; destruct (c_exit X t) as [s2 o2] end. exact Hi2.
+  - pose proof (c_run_timers_invA b cfg (cl_now s + d) (c_advance_fuel cfg s d) s Hi) as Hi1.
+    destruct (c_run_timers (c_advance_fuel cfg s d) cfg s (cl_now s + d)) as [s1 o1]. cbn [fst] in *. invA_raw. exact Hi1.
+Qed.
+
+(* ================================================================== pending API calls *)
+From Verif.Checkers Require Import ChkCl.
+
+Definition call_of (t : ctxn) : option N :=
+  match t with
+  | CxConnect c _ | CxRetry c _ _ _ _ _ _ | CxSleep c _ _ _ => Some c
+  | CxBrokerPub2 _ _ => None
+  end.
+(* the call is a Disconnect / Close: it may return nil when the client exits *)
+Definition dcall (t : ctxn) : option N :=
+  match t with
+  | CxRetry c kind _ _ _ _ _ => if (kind =? 6) || (kind =? 7) then Some c else None
+  | _ => None
+  end.
+
+(* no live transaction and no call blocked in group.Wait() belongs to call id c *)
+Definition fresh (s : cl_state) (c : N) : Prop :=
+  (forall g t, cl_objs s !! g = Some t -> call_of t <> Some c) /\
+  (forall c', In c' (cl_waiting_group s) -> c' / 2 <> c).
+
+(* pending calls have distinct ids (k_uo, k_uw); G holds of every call that may still return
+   nil from the group's termination (k_jo, k_jw) *)
+Record K (G : N -> Prop) (s : cl_state) : Prop := {
+  k_uo : forall g1 g2 t1 t2 c, cl_objs s !! g1 = Some t1 -> cl_objs s !! g2 = Some t2 ->
+           call_of t1 = Some c -> call_of t2 = Some c -> g1 = g2;
+  k_uw : forall c' g t, In c' (cl_waiting_group s) -> cl_objs s !! g = Some t -> call_of t <> Some (c' / 2);
+  k_jo : forall g t c, cl_objs s !! g = Some t -> dcall t = Some c -> G c;
+  k_jw : forall c', In c' (cl_waiting_group s) -> c' mod 2 <> 0 -> G (c' / 2) }.
+
+Definition RetsG (G : N -> Prop) (os : list cl_out) : Prop := forall c, In (c, ROk) (c_rets os) -> G c.
+
+Lemma c_rets_app' a b : c_rets (a ++ b) = c_rets a ++ c_rets b.
+Proof. unfold c_rets. apply bind_app. Qed.
+Lemma RetsG_nil (G : N -> Prop) : RetsG G []. Proof. intros c []. Qed.
+Lemma RetsG_app (G : N -> Prop) a b : RetsG G a -> RetsG G b -> RetsG G (a ++ b).
+Proof. intros Ha Hb c H. rewrite c_rets_app' in H. apply in_app_or in H. destruct H; [apply Ha|apply Hb]; assumption. Qed.
+Lemma RetsG_ret (G : N -> Prop) s call r : (r = ROk -> G call) -> RetsG G (ret s call r).
+Proof. intros H c [E|[]]. injection E as E1 E2. subst c. apply H. exact E2. Qed.
+Lemma RetsG_ret_ne (G : N -> Prop) s call r : r <> ROk -> RetsG G (ret s call r).
+Proof. intros H. apply RetsG_ret. intros E. contradiction. Qed.
+Lemma RetsG_send (G : N -> Prop) s p : RetsG G (fst (c_send s p)).
+Proof. unfold c_send. destruct (cl_conn_closed s); [intros c []|]. destruct (_ <=? _); intros c []. Qed.
+
+Lemma K_init (G : N -> Prop) : K G cl_init.
+Proof.
+  split; cbn.
+  - intros ? ? ? ? ? H. rewrite lookup_empty in H. discriminate.
+  - intros ? ? ? [].
+  - intros ? ? ? H. rewrite lookup_empty in H. discriminate.
+  - intros ? [].
+Qed.
+
+Lemma K_frame (G : N -> Prop) s s' : cl_objs s' = cl_objs s -> cl_waiting_group s' = cl_waiting_group s -> K G s -> K G s'.
+Proof. intros E1 E2 [H1 H2 H3 H4]. split; rewrite ?E1, ?E2; assumption. Qed.
+Lemma fresh_frame s s' c : cl_objs s' = cl_objs s -> cl_waiting_group s' = cl_waiting_group s -> fresh s c -> fresh s' c.
+Proof. intros E1 E2 [H1 H2]. split; rewrite ?E1, ?E2; assumption. Qed.
+
+Lemma K_arm (G : N -> Prop) s k d : K G s -> K G (c_arm s k d).
+Proof. apply K_frame; reflexivity. Qed.
+Lemma K_disarm (G : N -> Prop) s g : K G s -> K G (c_disarm s g).
+Proof. apply K_frame; reflexivity. Qed.
+Lemma K_set_state (G : N -> Prop) s st : K G s -> K G (c_set_state s st).
+Proof. apply K_frame; reflexivity. Qed.
+Lemma K_cancel_api (G : N -> Prop) s : K G s -> K G (c_cancel_from_api s).
+Proof. unfold c_cancel_from_api. destruct (cl_cancelled s); [auto|apply K_frame; reflexivity]. Qed.
+Lemma K_cancel_loop (G : N -> Prop) s e : K G s -> K G (c_cancel_from_loop s e).
+Proof. unfold c_cancel_from_loop. destruct (cl_cancelled s); [auto|apply K_frame; reflexivity]. Qed.
+
+Ltac K_raw :=
+  match goal with
+  | |- K ?G (set ?f ?v ?X) => apply (K_frame G X (set f v X)); [reflexivity|reflexivity|]
+  end.
+
+Lemma K_new_obj (G : N -> Prop) s t : K G s -> (forall c, call_of t = Some c -> fresh s c) -> (forall c, dcall t = Some c -> G c) ->
+  K G (fst (c_new_obj s t)) /\ cl_objs (fst (c_new_obj s t)) !! snd (c_new_obj s t) = Some t.
+Proof.
+  intros [H1 H2 H3 H4] Hf Hd. unfold c_new_obj. cbn [fst snd]. split; [split|]; cbn.
+  - intros g1 g2 t1 t2 c Hg1 Hg2 Hc1 Hc2.
+    destruct (N.eq_dec g1 (cl_next_obj s)) as [->|Hn1]; destruct (N.eq_dec g2 (cl_next_obj s)) as [->|Hn2]; [reflexivity| | |].
+    + rewrite lookup_insert in Hg1. injection Hg1 as <-. rewrite lookup_insert_ne in Hg2 by congruence.
+      destruct (Hf c Hc1) as [Hf1 _]. exfalso. eapply Hf1; eassumption.
+    + rewrite lookup_insert in Hg2. injection Hg2 as <-. rewrite lookup_insert_ne in Hg1 by congruence.
+      destruct (Hf c Hc2) as [Hf1 _]. exfalso. eapply Hf1; eassumption.
+    + rewrite lookup_insert_ne in Hg1, Hg2 by congruence. eapply H1; eassumption.
+  - intros c' g t' Hin Hg. destruct (N.eq_dec g (cl_next_obj s)) as [->|Hn].
+    + rewrite lookup_insert in Hg. injection Hg as <-. intros Hc. destruct (Hf _ Hc) as [_ Hf2]. eapply Hf2; [exact Hin|reflexivity].
+    + rewrite lookup_insert_ne in Hg by congruence. eapply H2; eassumption.
+  - intros g t' c Hg Hc. destruct (N.eq_dec g (cl_next_obj s)) as [->|Hn].
+    + rewrite lookup_insert in Hg. injection Hg as <-. apply Hd, Hc.
+    + rewrite lookup_insert_ne in Hg by congruence. eapply H3; eassumption.
+  - exact H4.
+  - apply lookup_insert.
+Qed.
+
+Lemma K_set_obj (G : N -> Prop) s g t t' : K G s -> cl_objs s !! g = Some t -> call_of t' = call_of t -> dcall t' = dcall t ->
+  K G (c_set_obj s g t').
+Proof.
+  intros [H1 H2 H3 H4] Hg Hc Hd. unfold c_set_obj.
+  assert (Hl : forall g0 t0, <[g := t']> (cl_objs s) !! g0 = Some t0 ->
+     exists t1, cl_objs s !! g0 = Some t1 /\ call_of t0 = call_of t1 /\ dcall t0 = dcall t1).
+  { intros g0 t0 H. destruct (N.eq_dec g0 g) as [->|Hn].
+    - rewrite lookup_insert in H. injection H as <-. exists t. auto.
+    - rewrite lookup_insert_ne in H by congruence. exists t0. auto. }
+  split; cbn.
+  - intros g1 g2 t1 t2 c Hg1 Hg2 Hc1 Hc2.
+    destruct (Hl _ _ Hg1) as (u1 & Hu1 & Hcu1 & _). destruct (Hl _ _ Hg2) as (u2 & Hu2 & Hcu2 & _).
+    apply (H1 g1 g2 u1 u2 c); [exact Hu1|exact Hu2|congruence|congruence].
+  - intros c' g0 t0 Hin Hg0. destruct (Hl _ _ Hg0) as (u & Hu & Hcu & _). rewrite Hcu. eapply H2; eassumption.
+  - intros g0 t0 c Hg0 Hd0. destruct (Hl _ _ Hg0) as (u & Hu & _ & Hdu). apply (H3 g0 u c); [exact Hu|congruence].
+  - exact H4.
+Qed.
+
+Lemma c_finish_obj_objs s g : cl_objs (c_finish_obj s g) = delete g (cl_objs s).
+Proof.
+  unfold c_finish_obj. destruct (cl_objs s !! g) as [t|] eqn:E.
+  - destruct t; cbn; try reflexivity. destruct (_ =? 5); [reflexivity|]. destruct (_ || _); reflexivity.
+  - symmetry. apply delete_notin, E.
+Qed.
+Lemma c_finish_obj_wg s g : cl_waiting_group (c_finish_obj s g) = cl_waiting_group s.
+Proof.
+  unfold c_finish_obj. destruct (cl_objs s !! g) as [t|]; [|reflexivity].
+  destruct t; cbn; try reflexivity. destruct (_ =? 5); [reflexivity|]. destruct (_ || _); reflexivity.
+Qed.
+Lemma c_finish_obj_cancelled s g : cl_cancelled (c_finish_obj s g) = cl_cancelled s.
+Proof.
+  unfold c_finish_obj. destruct (cl_objs s !! g) as [t|]; [|reflexivity].
+  destruct t; cbn; try reflexivity. destruct (_ =? 5); [reflexivity|]. destruct (_ || _); reflexivity.
+Qed.
+
+Lemma lookup_delete_Some' (m : Nmap ctxn) g g' t : delete g m !! g' = Some t -> m !! g' = Some t /\ g' <> g.
+Proof.
+  intros H. destruct (N.eq_dec g' g) as [->|Hne]; [rewrite lookup_delete in H; discriminate|].
+  rewrite lookup_delete_ne in H by congruence. auto.
+Qed.
+
+Lemma K_finish (G : N -> Prop) s g : K G s -> K G (c_finish_obj s g).
+Proof.
+  intros [H1 H2 H3 H4]. split; rewrite ?c_finish_obj_objs, ?c_finish_obj_wg.
+  - intros g1 g2 t1 t2 c Hg1 Hg2. apply lookup_delete_Some' in Hg1, Hg2. eapply H1; [apply Hg1|apply Hg2].
+  - intros c' g0 t0 Hin Hg0. apply lookup_delete_Some' in Hg0. eapply H2; [exact Hin|apply Hg0].
+  - intros g0 t0 c Hg0. apply lookup_delete_Some' in Hg0. eapply H3, Hg0.
+  - exact H4.
+Qed.
+
+Lemma fresh_finish (G : N -> Prop) s g t c : K G s -> cl_objs s !! g = Some t -> call_of t = Some c -> fresh (c_finish_obj s g) c.
+Proof.
+  intros [H1 H2 H3 H4] Hg Hc. split; rewrite ?c_finish_obj_objs, ?c_finish_obj_wg.
+  - intros g0 t0 Hg0 Hc0. apply lookup_delete_Some' in Hg0. destruct Hg0 as [Hg0 Hne]. apply Hne. eapply H1; eassumption.
+  - intros c' Hin E. eapply H2; [exact Hin|exact Hg|]. rewrite E. exact Hc.
+Qed.
+
+Lemma K_wg_add (G : N -> Prop) s cs : K G s ->
+  (forall c', In c' cs -> (forall g t, cl_objs s !! g = Some t -> call_of t <> Some (c' / 2)) /\ (c' mod 2 <> 0 -> G (c' / 2))) ->
+  K G (s <| cl_waiting_group := cl_waiting_group s ++ cs |>).
+Proof.
+  intros [H1 H2 H3 H4] Hcs. split; cbn; [exact H1| |exact H3|].
+  - intros c' g t Hin. apply in_app_or in Hin. destruct Hin as [Hin|Hin]; [eapply H2, Hin|apply (Hcs c' Hin)].
+  - intros c' Hin. apply in_app_or in Hin. destruct Hin as [Hin|Hin]; [apply H4, Hin|apply (Hcs c' Hin)].
+Qed.
+
+Definition KR (G : N -> Prop) (r : CR) : Prop := K G (fst r) /\ RetsG G (snd r).
+
+Ltac rets :=
+  repeat first
+    [ apply RetsG_nil | assumption | apply RetsG_app | apply RetsG_send
+    | apply RetsG_ret_ne; discriminate
+    | apply RetsG_ret; intros _; assumption ].
+
+Ltac K_send G :=
+  match goal with
+  | |- context [c_send ?X ?p] =>
+    let Ho := fresh "Ho" in pose proof (RetsG_send G X p) as Ho; destruct (c_send X p) as [? [|]]; cbn [fst] in Ho
+  end.
+
+Lemma connect_attempt_K (G : N -> Prop) cfg s call n : K G s -> fresh s call -> KR G (connect_attempt cfg s call n).
+Proof.
+  intros Hk Hf. unfold connect_attempt.
+  destruct (K_new_obj G s (CxConnect call n) Hk) as [Hk1 _].
+  { cbn [call_of]. intros c E. injection E as <-. exact Hf. }
+  { cbn [dcall]. discriminate. }
+  destruct (c_new_obj s (CxConnect call n)) as [s1 g1]. cbn [fst snd] in Hk1. cbv zeta.
+  match goal with |- context [c_arm ?X ?k ?d] => assert (Hk2 : K G (c_arm X k d)) by (apply K_arm; K_raw; exact Hk1);
+    generalize dependent (c_arm X k d) end.
+  intros s2 Hk2. K_send G; [|split; cbn [fst snd]; [exact Hk2|rets]].
+  destruct (len (k_user cfg) =? 0); [split; cbn [fst snd]; [exact Hk2|rets]|].
+  K_send G; (split; cbn [fst snd]; [exact Hk2|rets]).
+Qed.
+
+Lemma start_retry_K (G : N -> Prop) cfg s call kind key st p bt s' g o ok :
+  start_retry cfg s call kind key st p bt = (s', g, o, ok) -> K G s -> fresh s call ->
+  ((kind =? 6) || (kind =? 7) = true -> G call) ->
+  K G s' /\ RetsG G o /\ cl_objs s' !! g = Some (CxRetry call kind key st p 0 call).
+Proof.
+  unfold start_retry. intros H Hk Hf Hd.
+  destruct (K_new_obj G s (CxRetry call kind key st p 0 call) Hk) as [Hk1 Hg1].
+  { cbn [call_of]. intros c E. injection E as <-. exact Hf. }
+  { cbn [dcall]. intros c. destruct ((kind =? 6) || (kind =? 7)); [|discriminate]. intros E. injection E as <-. apply Hd. reflexivity. }
+  destruct (c_new_obj s (CxRetry call kind key st p 0 call)) as [s1 g1]. cbn [fst snd] in Hk1, Hg1. cbv zeta in H.
+  match type of H with context [c_arm ?X ?k ?d] =>
+    assert (Hk2 : K G (c_arm X k d) /\ cl_objs (c_arm X k d) !! g1 = Some (CxRetry call kind key st p 0 call)) end.
+  { split; [apply K_arm; destruct bt; K_raw; exact Hk1|destruct bt; exact Hg1]. }
+  match type of H with context [c_send ?X p] => pose proof (RetsG_send G X p) as Ho; destruct (c_send X p) as [o1 ok1] end.
+  injection H as <- <- <- _. destruct Hk2. auto.
+Qed.
+
+Ltac sr_K G :=
+  match goal with |- context [start_retry ?a ?b0 ?c ?d ?e ?f ?g ?h] =>
+    let E := fresh "E" in
+    destruct (start_retry a b0 c d e f g h) as [[[? ?] ?] ok] eqn:E;
+    eapply (start_retry_K G) in E;
+      [destruct E as (? & ? & ?)|eassumption|eassumption|first [discriminate|intros _; assumption]];
+    destruct ok
+  end.
+
+Lemma call_simple_K (G : N -> Prop) cfg s call kind st mk :
+  K G s -> fresh s call -> (kind =? 6) || (kind =? 7) = false -> KR G (call_simple cfg s call kind st mk).
+Proof.
+  intros Hk Hf Hd. unfold call_simple, c_next_mid.
+  match goal with |- context [start_retry ?a ?b ?c ?d ?e ?f ?g ?h] => destruct (start_retry a b c d e f g h) as [[[s' g'] o] ok] eqn:E end.
+  eapply (start_retry_K G) in E; [|K_raw; exact Hk|exact Hf|rewrite Hd; discriminate].
+  destruct E as (Hk1 & Ho & _). destruct ok; (split; cbn [fst snd]; [try apply K_finish; exact Hk1|rets]).
+Qed.
+
+Lemma do_publish_K (G : N -> Prop) cfg s call tit tid qos retain payload :
+  K G s -> fresh s call -> G call -> KR G (do_publish cfg s call tit tid qos retain payload).
+Proof.
+  intros Hk Hf Hg. unfold do_publish, c_next_mid. cbv zeta.
+  assert (Hk0 : K G (s <| cl_next_mid := if cl_next_mid s =? 65535 then 1 else cl_next_mid s + 1 |>)) by (K_raw; exact Hk).
+  assert (Hf0 : fresh (s <| cl_next_mid := if cl_next_mid s =? 65535 then 1 else cl_next_mid s + 1 |>) call) by exact Hf.
+  destruct ((qos =? 0) || (qos =? 3)).
+  { K_send G; (split; cbn [fst snd]; [exact Hk0|rets]). }
+  destruct (qos =? 1).
+  { sr_K G; (split; cbn [fst snd]; [try apply K_finish; assumption|rets]). }
+  destruct (qos =? 2).
+  { sr_K G; (split; cbn [fst snd]; [try apply K_finish; assumption|rets]). }
+  split; cbn [fst snd]; [exact Hk0|rets].
+Qed.
+
+Lemma do_call_K (G : N -> Prop) cfg s call a : K G s -> fresh s call -> G call -> KR G (do_call cfg s call a).
+Proof.
+  intros Hk Hf Hg. unfold do_call.
+  destruct a as [|topic|topic qos|tid qos|topic qos retain payload|tid qos retain payload|topic|tid| |ms| |].
+  - apply connect_attempt_K; assumption.
+  - destruct (len topic =? 0); [split; cbn [fst snd]; [exact Hk|rets]|]. apply call_simple_K; auto.
+  - destruct (len topic =? 0); [split; cbn [fst snd]; [exact Hk|rets]|].
+    destruct (is_short_topic topic); apply call_simple_K; auto.
+  - apply call_simple_K; auto.
+  - destruct (is_short_topic topic); [apply do_publish_K; assumption|].
+    destruct (reg_lookup (cl_registered s) topic); [apply do_publish_K; assumption|]. split; cbn [fst snd]; [exact Hk|rets].
+  - apply do_publish_K; assumption.
+  - destruct (len topic =? 0); [split; cbn [fst snd]; [exact Hk|rets]|].
+    destruct (is_short_topic topic); apply call_simple_K; auto.
+  - apply call_simple_K; auto.
+  - sr_K G; (split; cbn [fst snd]; [try apply K_finish; assumption|rets]).
+  - destruct (negb _); [split; cbn [fst snd]; [exact Hk|rets]|].
+    destruct (K_new_obj G s (CxSleep call CtNone 0 ms) Hk) as [Hk1 Hg1].
+    { cbn [call_of]. intros c E. injection E as <-. exact Hf. }
+    { cbn [dcall]. discriminate. }
+    destruct (c_new_obj s (CxSleep call CtNone 0 ms)) as [s1 g1]. cbn [fst snd] in Hk1, Hg1. cbv zeta.
+    assert (Hk2 : K G (s1 <| cl_by_type := <[TY_DISCONNECT := g1]> (cl_by_type s1) |>)) by (K_raw; exact Hk1).
+    cbn [cl_st set]. destruct (cl_st s1); try (split; cbn [fst snd]; [exact Hk2|rets]).
+    + K_send G; (split; cbn [fst snd]; [|rets]).
+      * apply K_arm. eapply K_set_obj; [exact Hk2|exact Hg1|reflexivity|reflexivity].
+      * apply K_finish, Hk2.
+    + split; cbn [fst snd]; [apply K_arm, K_set_state, Hk2|rets].
+  - destruct (cl_st s); try (split; cbn [fst snd]; [exact Hk|rets]);
+      (sr_K G; (split; cbn [fst snd]; [first [apply K_set_state|apply K_finish]; assumption|rets])).
+  - destruct (cl_st s); try (split; cbn [fst snd]; [K_raw; apply K_cancel_loop, Hk|rets]);
+      (sr_K G; (split; cbn [fst snd]; [first [apply K_set_state|apply K_finish]; assumption|rets])).
+Qed.
+
+Lemma txn_call_spec t c' : In c' (txn_call t) ->
+  exists c, call_of t = Some c /\ c' / 2 = c /\ (c' mod 2 <> 0 -> dcall t = Some c).
+Proof.
+  destruct t as [call att|call kind key st data n sub|call st n ms|mid pub]; cbn [txn_call call_of dcall].
+  - intros [<-|[]]. exists call. repeat split; lia.
+  - destruct ((kind =? 6) || (kind =? 7)); intros [<-|[]]; exists call; repeat split; lia.
+  - intros [<-|[]]. exists call. repeat split; lia.
+  - intros [].
+Qed.
+
+Lemma complete_K (G : N -> Prop) cfg s g t r ic : K G s -> cl_objs s !! g = Some t ->
+  (r = ROk -> dcall t = None -> forall c, call_of t = Some c -> G c) ->
+  KR G (complete cfg s g t r ic).
+Proof.
+  intros Hk Hg Hok. unfold complete. cbv zeta.
+  assert (Hf : K G (c_finish_obj s g)) by (apply K_finish, Hk).
+  assert (Hfr : forall c, call_of t = Some c -> fresh (c_finish_obj s g) c) by (intros c Hc; eapply fresh_finish; eassumption).
+  destruct (cl_cancelled (c_finish_obj s g)).
+  { split; cbn [fst snd]; [|rets]. destruct (cl_exited _); [exact Hf|].
+    apply K_wg_add; [exact Hf|]. intros c' Hin. apply txn_call_spec in Hin. destruct Hin as (c & Hc & Hc2 & Hd).
+    rewrite Hc2. split; [apply (Hfr c Hc)|]. intros Hodd. eapply (k_jo G s Hk g t c Hg), Hd, Hodd. }
+  destruct t as [call att|call kind key st data n sub|call st n ms|mid pub].
+  - assert (Hr : forall r', (r' = ROk -> r = ROk) -> KR G (c_finish_obj s g, ret (c_finish_obj s g) call r')).
+    { intros r' Hr'. split; cbn [fst snd]; [exact Hf|]. apply RetsG_ret. intros E. eapply Hok; [auto|reflexivity|reflexivity]. }
+    destruct r; try (apply Hr; auto; discriminate).
+    destruct (att + 1 <=? k_rcount cfg); [|apply Hr; discriminate].
+    apply connect_attempt_K; [exact Hf|]. apply Hfr. reflexivity.
+  - assert (Hd : (kind =? 6) || (kind =? 7) = true -> G call).
+    { intros E. apply (k_jo G s Hk g _ call Hg). cbn [dcall]. rewrite E. reflexivity. }
+    destruct (kind =? 6) eqn:E6.
+    { destruct r; (split; cbn [fst snd]; [try apply K_cancel_api; exact Hf|]); try (apply RetsG_ret_ne; discriminate);
+        apply RetsG_ret; intros _; apply Hd; reflexivity. }
+    destruct (kind =? 7) eqn:E7.
+    { destruct r; (split; cbn [fst snd]; [try (K_raw; apply K_cancel_loop); exact Hf|]); try (apply RetsG_ret_ne; discriminate);
+        apply RetsG_ret; intros _; apply Hd; reflexivity. }
+    split; cbn [fst snd]; [exact Hf|]. apply RetsG_ret. intros E. eapply Hok; [exact E| |reflexivity].
+    cbn [dcall]. rewrite E6, E7. reflexivity.
+  - split; cbn [fst snd]; [exact Hf|]. apply RetsG_ret. intros E. eapply Hok; [exact E|reflexivity|reflexivity].
+  - split; cbn [fst snd]; [exact Hf|rets].
+Qed.
+
+Lemma c_exit_K (G : N -> Prop) s t : K G s -> KR G (c_exit s t).
+Proof.
+  intros Hk. unfold c_exit. cbv zeta. split; cbn [fst snd].
+  - destruct Hk as [H1 H2 H3 H4]. split; cbn; [exact H1| |exact H3|]; intros; contradiction.
+  - intros c Hin. cbn in Hin.
+    assert (Hall : forall c', In c' ((map snd (map_to_list (cl_objs s)) ≫= txn_call) ++ cl_waiting_group s) ->
+              c' mod 2 <> 0 -> G (c' / 2)).
+    { intros c' Hin' Hodd. apply in_app_or in Hin'. destruct Hin' as [Hin'|Hin']; [|apply (k_jw G s Hk c' Hin' Hodd)].
+      apply elem_of_list_In, elem_of_list_bind in Hin'. destruct Hin' as (t0 & Hc' & Ht0).
+      apply elem_of_list_In, in_map_iff in Ht0. destruct Ht0 as ([g0 t1] & E & Hgt). cbn [snd] in E. subst t1.
+      apply elem_of_list_In, elem_of_map_to_list in Hgt.
+      apply elem_of_list_In, txn_call_spec in Hc'. destruct Hc' as (c0 & _ & E & Hd). rewrite E.
+      apply (k_jo G s Hk g0 t0 c0 Hgt). apply Hd, Hodd. }
+    revert Hall Hin. generalize ((map snd (map_to_list (cl_objs s)) ≫= txn_call) ++ cl_waiting_group s). intros l Hall.
+    unfold c_rets. induction l as [|c' l IH]; [intros []|].
+    cbn [mbind list_bind]. rewrite bind_app. intros Hin. apply in_app_or in Hin. destruct Hin as [Hin|Hin].
+    + destruct (c' mod 2 =? 0) eqn:Em; cbn in Hin; [destruct Hin as [E|[]]; discriminate|].
+      destruct (cl_group_err s); destruct Hin as [E|[]]; [discriminate|]. injection E as <-.
+      apply Hall; [left; reflexivity|]. apply N.eqb_neq, Em.
+    + apply IH; [|exact Hin]. intros c'' Hin'' Ho. apply Hall; [right; exact Hin''|exact Ho].
+Qed.
+
+(* what is known where a transaction is completed successfully by a received packet *)
+Definition site_ok (s : cl_state) (p : packet) (g : N) (t : ctxn) : Prop :=
+  match t with
+  | CxRetry _ kind _ st _ _ _ =>
+    if kind =? 3 then exists x mid, p = Puback x mid RC_ACCEPTED /\ cl_by_id s !! mid = Some g /\ st = CtAwaitPuback
+    else if kind =? 4 then exists mid, p = Pubcomp mid /\ cl_by_id s !! mid = Some g /\ st = CtAwaitPubcomp
+    else True
+  | _ => True
+  end.
+
+Lemma RetsG_dispatch (G : N -> Prop) s topic p : RetsG G (dispatch s topic p).
+Proof. unfold dispatch. destruct p; try apply RetsG_nil. match goal with |- context [match ?x with _ => _ end] => destruct x end; intros c []. Qed.
+
+Lemma ct_state_eqb_eq a b : ct_state_eqb a b = true -> a = b.
+Proof. destruct a, b; cbn; intros H; try discriminate; reflexivity. Qed.
+
+Ltac K_solve G :=
+  repeat first
+    [ assumption
+    | apply K_arm | apply K_disarm | apply K_set_state | apply K_cancel_api | apply K_cancel_loop | apply K_finish
+    | eapply K_set_obj; [|eassumption|reflexivity|reflexivity]
+    | K_raw
+    | match goal with |- K _ (if ?c then _ else _) => destruct c end ].
+
+Ltac K_leaf G := split; cbn [fst snd]; [K_solve G|repeat first [apply RetsG_dispatch|progress rets]].
+
+Ltac K_walk G :=
+  repeat first
+    [ match goal with H : c_get_id _ _ = Some (_, _) |- _ => apply c_get_id_Some in H; destruct H as [? ?] end
+    | match goal with H : c_get_type _ _ = Some (_, _) |- _ => apply c_get_type_Some in H; destruct H as [? ?] end
+    | match goal with |- context [c_new_obj ?X ?t] =>
+        let Hk := fresh "Hk" in let Hg := fresh "Hg" in
+        destruct (K_new_obj G X t ltac:(assumption) ltac:(intros ?; discriminate) ltac:(intros ?; discriminate)) as [Hk Hg];
+        destruct (c_new_obj X t) as [? ?]; cbn [fst snd] in Hk, Hg
+      end
+    | K_send G
+    | match goal with |- KR _ (match ?x with _ => _ end) => destruct x eqn:? end
+    | match goal with |- KR _ (if ?x then _ else _) => destruct x eqn:? end
+    | match goal with |- KR _ (let (_, _) := ?x in _) => destruct x eqn:? end ].
+
+Section HandlePacketK.
+  Variables (G : N -> Prop) (cfg : cl_cfg) (s : cl_state) (p : packet).
+  Hypothesis Hk : K G s.
+  Hypothesis Hok : forall g t c, cl_objs s !! g = Some t -> call_of t = Some c -> site_ok s p g t -> G c.
+
+  Ltac okc :=
+    let E := fresh "E" in let c := fresh "c" in let Hc := fresh "Hc" in
+    intros E _ c Hc;
+    first [discriminate E
+          |eapply Hok; [eassumption|exact Hc|cbn [site_ok N.eqb Pos.eqb]; try exact I]].
+
+  Ltac K_complete :=
+    repeat match goal with |- context [if ?c then (set ?f ?v ?X) else ?X] => destruct c end;
+    (apply complete_K; [K_solve G|eassumption|okc]).
+
+  Lemma handle_packet_K : forall q, q = p -> KR G (handle_packet cfg s q).
+  Proof.
+    intros q Eq. unfold handle_packet, loop_err. destruct q; cbv zeta; K_walk G; try K_complete; try K_leaf G.
+    all: subst p.
+    - (* Puback *)
+      eexists _, _. split; [f_equal; apply N.eqb_eq; eassumption|]. split; [eassumption|].
+      apply ct_state_eqb_eq. match goal with H : negb _ = false |- _ => apply negb_false_iff in H; exact H end.
+    - (* Pubcomp *)
+      eexists. split; [reflexivity|]. split; [eassumption|]. apply ct_state_eqb_eq. assumption.
+  Qed.
+End HandlePacketK.
+
+Lemma c_set_obj_lookup s g t : cl_objs (c_set_obj s g t) !! g = Some t.
+Proof. unfold c_set_obj. cbn. apply lookup_insert. Qed.
+
+Lemma c_fire_K (G : N -> Prop) cfg s k : K G s -> KR G (c_fire cfg s k).
+Proof.
+  intros Hk. unfold c_fire.
+  destruct k as [g|g|g|g|g]; cbv zeta; K_walk G;
+    try (apply complete_K; [K_solve G|first [eassumption|apply c_set_obj_lookup]|intros E; discriminate E]);
+    try K_leaf G.
+Qed.
+
+Lemma KR_app (G : N -> Prop) s o o' : RetsG G o -> KR G (s, o') -> KR G (s, o ++ o').
+Proof. intros Ho [H1 H2]. split; [exact H1|apply RetsG_app; assumption]. Qed.
+
+Lemma c_run_timers_K (G : N -> Prop) cfg t fuel : forall s, K G s -> KR G (c_run_timers fuel cfg s t).
+Proof.
+  induction fuel as [|fuel IH]; intros s Hk; cbn [c_run_timers]; [split; [exact Hk|apply RetsG_nil]|]. cbv zeta.
+  destruct (c_min_timer (cl_timers s)) as [tm|].
+  - match goal with |- context [if ?c then _ else _] => destruct c end.
+    + match goal with |- context [c_fire cfg ?X ?k] =>
+        assert (Hk1 : KR G (c_fire cfg X k)) by (apply c_fire_K; repeat K_raw; exact Hk);
+        destruct (c_fire cfg X k) as [s1 o1] end.
+      destruct Hk1 as [Hk1 Ho1]. cbn [fst snd] in Hk1, Ho1.
+      specialize (IH s1 Hk1). destruct (c_run_timers fuel cfg s1 t) as [s2 o2]. apply KR_app; assumption.
+    + destruct (if cl_exited s then None else cl_cancelled s) as [te|]; [|split; [exact Hk|apply RetsG_nil]].
+      destruct (te <=? t); [|split; [exact Hk|apply RetsG_nil]].
+      pose proof (c_exit_K G s te Hk) as [Hk1 Ho1]. destruct (c_exit s te) as [s1 o1]. cbn [fst snd] in Hk1, Ho1.
+      specialize (IH s1 Hk1). destruct (c_run_timers fuel cfg s1 t) as [s2 o2]. apply KR_app; assumption.
+  - destruct (if cl_exited s then None else cl_cancelled s) as [te|]; [|split; [exact Hk|apply RetsG_nil]].
+    destruct (te <=? t); [apply c_exit_K, Hk|split; [exact Hk|apply RetsG_nil]].
+Qed.
+
+Lemma cl_step_K (G : N -> Prop) cfg s ev : K G s ->
+  (forall id a, ev = CCall id a -> fresh s id /\ G id) ->
+  (forall p, ev_pkt ev = Some p -> forall g t c, cl_objs s !! g = Some t -> call_of t = Some c -> site_ok s p g t -> G c) ->
+  KR G (cl_step cfg s ev).
+Proof.
+  intros Hk Hc Hp. unfold cl_step. destruct ev as [id a|dg|d].
+  - destruct (cl_exited s); [split; [exact Hk|apply RetsG_nil]|]. destruct (cl_cancelled s); [split; [exact Hk|apply RetsG_nil]|].
+    destruct (Hc id a eq_refl) as [Hf Hg].
+    pose proof (do_call_K G cfg s id a Hk Hf Hg) as [Hk1 Ho1]. destruct (do_call cfg s id a) as [s1 o1]. cbn [fst snd] in Hk1, Ho1.
+    destruct (cl_cancelled s1) as [te|]; [|split; assumption]. destruct (te <=? cl_now s1); [|split; assumption].
+    pose proof (c_exit_K G s1 te Hk1) as Hk2. destruct (c_exit s1 te) as [s2 o2]. apply KR_app; assumption.
+  - destruct (cl_exited s); [split; [exact Hk|apply RetsG_nil]|]. destruct (cl_cancelled s); [split; [exact Hk|apply RetsG_nil]|]. cbv zeta.
+    assert (Hk0 : K G (s <| cl_last_read := cl_now s |>)) by (K_raw; exact Hk).
+    cbn [ev_pkt] in Hp.
+    destruct (read_dgram dg) as [p|e|ps].
+    + pose proof (handle_packet_K G cfg (s <| cl_last_read := cl_now s |>) p Hk0 (Hp p eq_refl) p eq_refl) as [Hk1 Ho1].
+      destruct (handle_packet cfg (s <| cl_last_read := cl_now s |>) p) as [s1 o1]. cbn [fst snd] in Hk1, Ho1.
+      destruct (cl_cancelled s1) as [te|]; [|split; assumption]. destruct (te <=? cl_now s1); [|split; assumption].
+      pose proof (c_exit_K G s1 te Hk1) as Hk2. destruct (c_exit s1 te) as [s2 o2]. apply KR_app; assumption.
+    + match goal with |- context [c_exit ?X ?t] =>
+        pose proof (c_exit_K G X t ltac:(apply K_cancel_loop, Hk0)) as Hk2; destruct (c_exit X t) as [s2 o2] end. exact Hk2.
+    + match goal with |- context [c_exit ?X ?t] =>
+        pose proof (c_exit_K G X t ltac:(apply K_cancel_loop, Hk0)) as Hk2; destruct (c_exit X t) as [s2 o2] end. exact Hk2.
+  - pose proof (c_run_timers_K G cfg (cl_now s + d) (c_advance_fuel cfg s d) s Hk) as [Hk1 Ho1].
+    destruct (c_run_timers (c_advance_fuel cfg s d) cfg s (cl_now s + d)) as [s1 o1]. cbn [fst snd] in *.
+    split; cbn [fst snd]; [K_raw; exact Hk1|exact Ho1].
 Qed.
